@@ -278,9 +278,12 @@ def followup(case, ans):
     if trace is None:
         return None
     exp = fc.res_field(ans)
+    # version 3 of the closed theorems: the recorded answers of perfect_power and rho are re-asked to their whole-function
+    # MODELS (premises PerfectPowerModel / RhoModel), on crashing runs too
+    extra = rh.model_followups(trace)
     if kind == "panic":
-        return None
-    return (f"factor_replay {case.args[0]} {case.args[1]} {trace}", exp)
+        return extra or None
+    return [(f"factor_replay {case.args[0]} {case.args[1]} {trace}", exp)] + extra
 
 
 def klass(case, ans):
